@@ -10,14 +10,14 @@ CONSTANTS
   CSerials = {0}
   Payloads = {1}
   TypeIds = {301}
-  Caps <- CapsOne
-  MaxCookie = 3
+  Caps <- CapsMany
+  MaxCookie = 2
   InqBound = 1
-  Kinds = {"CreateObject", "DestroyObject", "CreateService", "AddBusListenerFilter", "RemoveBusListenerFilter", "ClearBusListenerFilters", "StartBusListener", "StopBusListener", "DestroyBusListener"}
-  Faults = {"ends"}
+  Kinds = {"CreateChannel", "CloseChannelEnd", "ClaimChannelEnd", "SendItem", "AddChannelCapacity"}
+  Faults = {"ends", "dropped"}
   WrongKinds = {}
-  MsgBudget = 3
-  ScriptSel = "lst"
+  MsgBudget = 4
+  ScriptSel = "chan"
   V0 = 20
   V1 = 20
 VIEW view
